@@ -240,7 +240,8 @@ def r3(prog, run):
             continue
         a_, op, b_ = r
         # L >= h : (expr|local:aac_frame_length) >= local:header_len   or   local:header_len <= (expr|..)
-        if (b_ == "local:header_len" and op == ">=" and a_ in ("expr", "local:aac_frame_length")) or (a_ == "local:header_len" and op == "<=" and b_ in ("expr", "local:aac_frame_length")):
+        # (a strict `L > h` entails it: the success path then never stores an empty sample)
+        if (b_ == "local:header_len" and op in (">=", ">") and a_ in ("expr", "local:aac_frame_length")) or (a_ == "local:header_len" and op in ("<=", "<") and b_ in ("expr", "local:aac_frame_length")):
             lo = True
         if (a_ == "len(param:frame)" and op == ">=" and b_ in ("expr", "local:aac_frame_length")) or (b_ == "len(param:frame)" and op == "<=" and a_ in ("expr", "local:aac_frame_length")):
             hi = True
